@@ -22,7 +22,7 @@ PASS_CHECKS = {"rename_locals_base_score": ["C01", "C06"], "extract_helper_explo
                "decode_errors_is": ["C07", "C11"], "v3_env_encode_sprintf_s": ["C10"],
                "names_valueof_restructure": ["C18", "C17"], "version_get_switch": ["C20"], "report_temporal_locals": ["C17"], "report_assign_fields": ["C17"],
                "v2_env_decodeone_restructure": ["C08", "C11"], "v2_env_encode_plus": ["C08"], "export_with_restructure": ["C19"],
-               "unused_field_added": ["C15", "C09"], "function_moved_file": ["C06", "C12"]}
+               "unused_field_added": ["C15", "C09"], "function_moved_file": ["C06", "C12"], "buffer_by_value": ["C19"], "encode_fprintf_writebyte": ["C10"]}
 def run(kind, flt):
     results = []
     if kind in ("pass", "fail"):
